@@ -219,6 +219,31 @@ func runC05(e *Engine, r *Report) {
 					"a proposal of an unregistered/evicted session is rejected without touching the state machine", "the unknown-session path can reach the state machine update")
 				// and it reports rejected=true
 				okRej := false
+				if rejIdx < 0 {
+					// the outcome travels in a result struct: on the unknown-session edge a bool field of the returned struct is set to true
+					forEachInstr(fn, func(x ssa.Instruction) {
+						ret, ok := x.(*ssa.Return)
+						if !ok || len(ret.Results) == 0 {
+							return
+						}
+						if g, _ := e.guardedOnAllPaths(x, reqBool("", extractOf(reg, 1), false)); !g {
+							return
+						}
+						u, ok := retOperand(ret, 0).(*ssa.UnOp)
+						if !ok {
+							return
+						}
+						al, ok := u.X.(*ssa.Alloc)
+						if !ok {
+							return
+						}
+						for _, sv := range storesInto(al) {
+							if cb, isC := isConstBool(sv); isC && cb {
+								okRej = true
+							}
+						}
+					})
+				}
 				forEachInstr(fn, func(x ssa.Instruction) {
 					ret, ok := x.(*ssa.Return)
 					if !ok || rejIdx < 0 || len(ret.Results) <= rejIdx {
@@ -376,8 +401,17 @@ func runC05(e *Engine, r *Report) {
 		}
 	}
 	userSave := r.needMethod("internal/rsm", "IStateMachine", "Save")
-	for _, nm := range []string{"(*internal/rsm.NativeSM).save", "(*internal/rsm.NativeSM).saveDummy"} {
-		fn := r.need(nm)
+	for _, nm := range []string{"(*internal/rsm.NativeSM).save", "?(*internal/rsm.NativeSM).saveDummy"} {
+		var fn *ssa.Function
+		if nm[0] == '?' {
+			nm = nm[1:]
+			if fn = r.helper(nm); fn == nil {
+				// inlined into the managed Save: the dummy branch writes the session bytes there
+				fn = r.need("(*internal/rsm.NativeSM).Save")
+			}
+		} else {
+			fn = r.need(nm)
+		}
 		if fn == nil {
 			continue
 		}
